@@ -75,9 +75,14 @@ def mode_api(spec):
             except SyntaxError:
                 pass
         elif o["op"] == "with":
-            with jaxtyping.install_import_hook(o["names"], chk):
-                for m in o["inside"]:
-                    importlib.import_module(m)
+            try:
+                with jaxtyping.install_import_hook(o["names"], chk):
+                    for m in o["inside"]:
+                        importlib.import_module(m)
+                    if o.get("leave_by_exception"):
+                        importlib.import_module("jtv_optional_module_that_does_not_exist")
+            except ImportError:
+                pass
     for h in handles.values():
         h.uninstall()
         h.uninstall()  # double uninstall must be harmless
